@@ -143,6 +143,59 @@ def confine_cases():
     return cases
 
 
+def mcp_life_steps(ctx, info, rng):
+    """config_apply of a candidate whose meaning depends on the environment ({file.PATH} / {$VAR} placeholders are resolved by compile):
+    previewed while it compiles, then the file it refers to goes away (or turns into something invalid), then the SAME bytes are applied
+    on the same server.  Also the harmless direction (invalid first, valid later: the later call may write)."""
+    original = '"/r" {\n  deliver "https://example.com" {}\n}\n'
+    cand_file = '"/r" {\n  deliver "{file.%DIR%/deliver-url}" {}\n}\n'
+    setting = {"role": "admin", "mut": True, "rt": False, "principal": "ops"}
+
+    def call(mode, content=cand_file, **kw):
+        return {"call": {"name": "config_apply", "args": dict({"content": content, "mode": mode}, **kw)}}
+    cases = []
+    for mode2 in ("write_only",):
+        for gone in ("rm", "invalid"):
+            steps = [call("preview_only"), ({"rm": "deliver-url"} if gone == "rm" else {"write": "deliver-url", "content": "not a url at all\n\x00"}), call(mode2), call("preview_only")]
+            cases.append({"setting": setting, "initial": original, "files": {"deliver-url": "https://example.org"}, "steps": steps, "_kind": "valid-then-%s" % gone})
+        # twice valid: the second call writes
+        cases.append({"setting": setting, "initial": original, "files": {"deliver-url": "https://example.org"}, "steps": [call("preview_only"), call(mode2)],
+                      "_kind": "valid-twice"})
+        # invalid first (file missing), valid later
+        cases.append({"setting": setting, "initial": original, "files": {}, "steps": [call("preview_only"), {"write": "deliver-url", "content": "https://example.net"}, call(mode2)],
+                      "_kind": "invalid-then-valid"})
+    rc, out, err = C.harness_run(info["hbin"], ["mcp-life-steps"], {"dir": os.path.join(ctx.scratch, "mcpsteps"), "cases": [{k: v for k, v in c.items() if not k.startswith("_")} for c in cases]},
+                                 timeout=300)
+    if rc != 0:
+        raise RuntimeError("mcp-life-steps failed: " + err[-1500:])
+    stats = {"cases": len(cases), "calls": 0}
+    for c, o in zip(cases, json.loads(out)["cases"]):
+        if o.get("err"):
+            raise RuntimeError("mcp-life-steps case %s: %s" % (c["_kind"], o["err"]))
+        calls = o["calls"]
+        stats["calls"] += len(calls)
+        problems = []
+        for k, co in enumerate(calls):
+            if not co["file_compiles"]:
+                problems.append("after call %d the configuration file does not compile (the tool answered ok=%s applied=%s)" % (k + 1, co.get("ok"), co.get("applied")))
+        nmut = sum(1 for st in c["steps"] if "call" in st)
+        if o["audit_records"] != nmut:
+            problems.append("%d audit records for %d mutating calls" % (o["audit_records"], nmut))
+        if c["_kind"].startswith("valid-then-"):
+            if calls[1].get("applied") or calls[1].get("ok") or not calls[1]["file_same_as_before_call"]:
+                problems.append("the candidate no longer compiles when it is applied (the file it refers to %s), yet the tool answered ok=%s applied=%s and the file %s" %
+                                ("is gone" if c["_kind"].endswith("rm") else "is not a URL any more", calls[1].get("ok"), calls[1].get("applied"),
+                                 "was rewritten" if not calls[1]["file_same_as_before_call"] else "was left alone"))
+        elif c["_kind"] in ("valid-twice", "invalid-then-valid"):
+            last = calls[-1]
+            if not last.get("applied") or last["file_same_as_before_call"]:
+                problems.append("a candidate that compiles when it is applied was not written (ok=%s applied=%s): %s" % (last.get("ok"), last.get("applied"), last.get("text")))
+        if problems:
+            C.report(ctx, "config-apply-life:%s" % c["_kind"], "one MCP server, config_apply calls with byte-identical content: " + "; ".join(problems),
+                     {"kind": "request", "case": {k: v for k, v in c.items() if not k.startswith("_")}, "observed": o})
+    return stats
+
+
 def mcp_serve_killed(ctx, rng):
     import signal
     import subprocess
@@ -450,6 +503,8 @@ def main(ctx, replay):
             C.report(ctx, "audit-life:%s" % ("sink-recovers" if bad_w else "healthy-sink"), "one MCP server, %d mutating calls: %s" % (len(tools), "; ".join(problems)),
                      {"kind": "request", "case": c, "observed": o})
     cov["mcp_audit_life"] = life_stats
+    # ONE server, the environment changes between two calls with byte-identical content: what is written must compile WHEN it is written
+    cov["mcp_life_steps"] = mcp_life_steps(ctx, info, rng)
     # the REAL binary (`hookaido mcp serve` over stdio, built from the working tree): mutating calls are answered, then the host kills
     # the server as MCP hosts do - every answered mutating call has its audit record on the audit stream (stderr) by then
     cov["mcp_serve_killed"] = mcp_serve_killed(ctx, rng)
